@@ -492,6 +492,9 @@ static int retrieve_addr(int fd, int (*socknamefn)(int, struct sockaddr *,
 	strncpy(name, addr.sun_path + 1, name_len - 1);
         name[name_len - 1] = '\0';
     } else {
+	/* for a pathname socket, the length includes the terminating NUL */
+	if (name_len > UX_NAME_MAX)
+	    name_len = UX_NAME_MAX;
 	strncpy(name, addr.sun_path, name_len);
         name[name_len] = '\0';
     }
